@@ -559,9 +559,12 @@ RECURSIVE ApplyDevs(_, _, _)
 ApplyDevs(d, v, devs) == IF devs = <<>> THEN d ELSE ApplyDevs(ApplyDev(d, v, Head(devs)), v, Tail(devs))
 
 DevKeys(v) == {k \in Keys : Placeable(v, k) /\ DevKinds(v, k) # {}}
-\* Pairs: a section-level or list-level deviation together with any other
-\* key outside it, and all pairs of keys that later steps concern.
-Hot(v) == {k \in DevKeys(v) : k \in SectionKeys \cup {"clients", "clients.persistent", "filters", "schema_version"}}
+\* Pairs: a section or list that a later step concerns (null or empty)
+\* together with a key outside it that the golden file has and a later step
+\* concerns (null or of a wrong type).
+Hot(v) == {k \in DevKeys(v) \cap ConcFrom[v] :
+             /\ k \in SectionKeys \cup {"clients", "clients.persistent", "filters"}
+             /\ BaseDocs[v][k].t # "absent"}
 
 \* ------------------------------------------------------------- analysis
 Splits(s) == IF s < 0 THEN {} ELSE (s + 1)..(Last - 1)
@@ -631,7 +634,7 @@ PickSingle == /\ st = "key" /\ ~Pairs
 \* that a later step concerns.
 PickPair == /\ st = "key" /\ Pairs
             /\ LET v == vec.v  k == vec.k IN
-               /\ k \in ConcFrom[v]
+               /\ k \in ConcFrom[v] /\ BaseDocs[v][k].t # "absent"
                /\ \E h \in Hot(v) \ ({k} \cup Inside(v, k)) :
                     /\ k \notin Inside(v, h)
                     /\ \E hd \in DevKinds(v, h) \cap {"null", "empty"} :
